@@ -14,7 +14,12 @@ Ops (see `harness/go/cmd/c06`):
   drain                                → drained to=<ids|-> | panic negative-waitgroup
   idle ms=<n>                          → to=<ids|->            (real time passes, mock time does not)
   tick-hold                            → to=<ids|-> log=<events|-> held=<id|->   (gate `queue.before-repush`)
-  tick-release                         → to=<ids|-> log=<events|->   (only while held; loop first, then the watcher)
+  tick-release                         → to=<ids|-> log=<events|-> prompt=<1|->
+                                         (only while held; loop first, then the watcher; prompt=1: the held request was
+                                          past its TTL, the watcher had scanned meanwhile (idle ms >= TTL+100), and its
+                                          verdict came within 500 ms of wall clock after the release - a TEST)
+  arrive-tick id=<k> prio=<p|none>     → queued|blocked to=<ids|-> log=<events|->
+                                         (a tick whose loop pass runs while the arriving request is inside queue.Enqueue)
   advance ms=<n>                       → ok                    (only while held: mock clock moves, no loop timer pending)
  level L1 (the shared queue alone; a case starting with `qnew`):
   qnew → ok | q-enq id=<k> prio=<p> → ok | q-deq → <id>|- | q-rm id=<k> → ok | q-size → <n>
@@ -81,6 +86,7 @@ structure RunSt where
   drained : Bool := false
   dead : Bool := false
   held : Bool := false       -- the loop stands at the gate before a re-push
+  scanned : Bool := false    -- while held: the watcher had real time for a scan since the clock last moved
   q : Option QSt := none     -- level L1: the shared queue alone
 
 def RunSt.s (st : RunSt) : St := st.x.s
@@ -149,6 +155,15 @@ def runStep (st : RunSt) (line : String) : RunSt × String :=
         let st' := st.op (.arrive p)
         (st', if (st'.s.reqs id).pc == .parked then "queued" else "blocked")
       | _, _ => (st, "bad-op")
+    | "arrive-tick" =>
+      match kvNat ws "id", parsePrio ws with
+      | some id, some p =>
+        if id != st.s.n || st.real then (st, "bad-op") else
+        let st' := st.op (.arriveTick p)
+        let evs := newEvents st'.s n0
+        let a := if evs.any (fun | .queued i _ _ => i == id | _ => false) then "queued" else "blocked"
+        (st', s!"{a} to={fmtIds (timeouts evs)} log={fmtLog evs}")
+      | _, _ => (st, "bad-op")
     | "arrive-begin" =>
       match kvNat ws "id", parsePrio ws with
       | some id, some p =>
@@ -171,26 +186,33 @@ def runStep (st : RunSt) (line : String) : RunSt × String :=
       | some _ =>
         if st.real then (st, "bad-op") else
         let st' := st.op .idle
-        (st', s!"to={fmtIds (timeouts (newEvents st'.s n0))}")
+        let ms := (kvNat ws "ms").getD 0
+        ({ st' with scanned := st.scanned || (st.held && ms ≥ st.cfg.ttl + 100) },
+         s!"to={fmtIds (timeouts (newEvents st'.s n0))}")
       | none => (st, "bad-op")
     | "tick-hold" =>
       if st.real || !ws.isEmpty then (st, "bad-op") else
       let st' := st.op .tickHold
       let evs := newEvents st'.s n0
       let (h, hs) := match st'.s.loop with | .refused i => (true, toString i) | _ => (false, "-")
-      ({ st' with held := h }, s!"to={fmtIds (timeouts evs)} log={fmtLog evs} held={hs}")
+      ({ st' with held := h, scanned := false }, s!"to={fmtIds (timeouts evs)} log={fmtLog evs} held={hs}")
     | "tick-release" =>
       if !st.held || !ws.isEmpty then (st, "bad-op") else
       let st' := st.op .tickRelease
       let evs := newEvents st'.s n0
-      ({ st' with held := false }, s!"to={fmtIds (timeouts evs)} log={fmtLog evs}")
+      let late := match st.s.loop with
+        | .refused i => decide ((st.s.reqs i).arrival + st.cfg.ttl < st.s.now)
+        | _ => false
+      let pr := if st.scanned && late then "1" else "-"
+      ({ st' with held := false, scanned := false }, s!"to={fmtIds (timeouts evs)} log={fmtLog evs} prompt={pr}")
     | "advance" =>
       match kvNat ws "ms" with
       | some ms =>
         -- only the request the loop holds may run out of TTL by the jump
         let others := idsWhere st.s fun r =>
           r.pc == .parked && r.st == .enqueued && decide (r.arrival + st.cfg.ttl < st.s.now + ms)
-        if !st.held || ms > 10000 || !others.isEmpty then (st, "bad-op") else (st.op (.advance ms), "ok")
+        if !st.held || ms > 10000 || !others.isEmpty then (st, "bad-op")
+        else ({ st.op (.advance ms) with scanned := false }, "ok")
       | none => (st, "bad-op")
     | "hold-remove" =>
       if st.real then (st, "bad-op") else (st.op .holdRemove, "ok")
@@ -272,6 +294,18 @@ def judgeStep (s : JudgeSt) (op out : String) : JudgeSt :=
     | some i, some _, "blocked" => s.push [.rejected i s.now]
     | _, _, "bad-op" => s
     | _, _, _ => fail "unparsable"
+  | "arrive-tick" :: ws =>
+    match kvNat ws "id", parsePrio ws, kv ows "to" >>= parseIds, kv ows "log" with
+    | some i, some p, some ids, some lg =>
+      let s1 := { s with now := s.now + 100 }
+      let s2 := ids.foldl (fun s i => s.verdict i false) s1
+      let s3 := if ows.head? == some "queued" then s2.push [.checked i, .queued i p s2.now]
+                else if ows.head? == some "blocked" then s2.push [.rejected i s2.now] else s2
+      if lg == "-" then s3 else
+      match (lg.splitOn ",").foldlM parseLogItem s3 with
+      | some s4 => s4
+      | none => fail "unparsable"
+    | _, _, _, _ => if out == "bad-op" || out == "dead" then s else fail "unparsable"
   | "arrive-begin" :: ws =>
     match kvNat ws "id", parsePrio ws, out with
     | some i, some p, "at-gate" => { s.push [.checked i] with pend := s.pend ++ [(i, p, s.now)] }
@@ -311,7 +345,7 @@ def judgeStep (s : JudgeSt) (op out : String) : JudgeSt :=
   | ["tick-release"] =>
     match kv ows "to" >>= parseIds, kv ows "log" with
     | some ids, some lg =>
-      let s := { s with settled := true }
+      let s := { s with settled := true, late := s.late || kv ows "prompt" == some "0" }
       let s2 := if lg == "-" then some s else (lg.splitOn ",").foldlM parseLogItem s
       match s2 with
       | some s3 => ids.foldl (fun s i => s.verdict i false) s3
@@ -377,7 +411,7 @@ def judgeFinish (s : JudgeSt) : String :=
   | none =>
     let h := s.hist.reverse
     if s.isQ then (if qHolds s.qh.reverse then "ok" else "fail - shared-queue-dequeue-not-a-minimum")
-    else if s.late then "fail - ttl-wall-clock-bound-missed"
+    else if s.late then "fail - ttl-wall-clock-bound-missed(verdict-not-within-the-wall-clock-bound)"
     else if !holds s.cfg h then s!"fail - {firstBad s.cfg h}"
     else if s.settled && !endOk s.cfg s.hist s.now then "fail - waiter-without-verdict-beyond-ttl-at-end"
     else if s.stuck then "fail - harness-gave-up-waiting(stuck)"
